@@ -5,6 +5,7 @@ import (
 	"encoding/binary"
 	"fmt"
 	"net"
+	"os"
 	"sync"
 	"sync/atomic"
 	"time"
@@ -207,12 +208,13 @@ func runC06(r *Run) {
 			upTotal = 400000
 		}
 		c06Stall = 0
-		if r.Thorough() && i == 7 { // once: a client that stops reading for 11 s while the host streams
+		if (r.Thorough() && i == 7) || (os.Getenv("VERIF_C06_STALL") != "" && i == 1) { // once: a client that stops reading for 11 s while the host streams
 			c06Stall, downTotal, kind = 11*time.Second, 4<<20, "legacy"
 		}
 		up := randBytes(upTotal)
 		down := randBytes(downTotal)
 		res := relayOnce(kind, gws, listeners[0], port, up, down, rng)
+		stalled := c06Stall
 		c06BigSegs, c06Stall = false, 0
 		if res.inconclusive != "" {
 			r.Inconclusive()
@@ -222,7 +224,7 @@ func runC06(r *Run) {
 		r.Count(fmt.Sprintf("api:%s:%d:%d:%d", kind, upTotal, downTotal, i))
 		r.Dist("api:" + kind)
 		rep := fmt.Sprintf("transport=%s client→host %d bytes in %d DATA packets over %d transport writes, host→client %d bytes; large transport messages=%v; client stalled for %v\nhost received %d bytes (first difference at %d)\nclient received %d payload bytes in DATA packets (first difference at %d)\n",
-			kind, len(up), res.upPkts, res.upSegs, len(down), i%5 == 4, c06Stall, len(res.hostGot), firstDiff(res.hostGot, up), len(res.clientGot), firstDiff(res.clientGot, down))
+			kind, len(up), res.upPkts, res.upSegs, len(down), i%5 == 4, stalled, len(res.hostGot), firstDiff(res.hostGot, up), len(res.clientGot), firstDiff(res.clientGot, down))
 		if res.malformed != "" {
 			r.Violation("c06-api-malformed", "a DATA packet sent to the client is not well-formed: "+res.malformed, rep)
 			continue
